@@ -3,7 +3,8 @@
 patch=$1; shift
 cd /repo && git apply --check "$patch" || { echo "patch does not apply"; exit 2; }
 git apply "$patch"
-trap 'git -C /repo checkout -- . ; echo "(reverted /repo)"' EXIT
+rm -rf /verif/work/evidence-backup; cp -r /verif/evidence /verif/work/evidence-backup
+trap 'git -C /repo checkout -- . ; rm -rf /verif/evidence; mv /verif/work/evidence-backup /verif/evidence; echo "(reverted /repo, restored evidence)"' EXIT
 cd /verif
 for id in "$@"; do
   ./check $id --tier quick 2>&1 | grep -E "VIOLATION|KNOWN|^C[0-9]+ (ok|FAIL)|Error|error" | head -5
